@@ -8,6 +8,16 @@ ILLEGAL = "!not set"
 KEYS = [0x25, 0x27, 0x26, 0x28, 0x0D, 0x20, 0x24, 0x23, 0x08, 0x1B] + list(range(0x30, 0x3A))
 
 
+RETRY_EXPRS = [
+    "<math><mrow><mrow><mn>2</mn><mo>&#x2062;</mo><mi>x</mi></mrow><mo>+</mo><mi>y</mi></mrow></math>",
+    "<math><mn>2</mn><mi>x</mi><mi>y</mi><mo>+</mo><mn>3</mn><mi>a</mi><mi>b</mi></math>",
+    "<math><msub><mi>a</mi><mrow><mi>i</mi><mo>&#x2063;</mo><mi>j</mi></mrow></msub><mi>x</mi><mo>-</mo><mn>4</mn><msup><mi>y</mi><mn>2</mn></msup><mi>z</mi></math>",
+    "<math><mfrac><mrow><mn>2</mn><mi>a</mi></mrow><mrow><mn>3</mn><mi>b</mi><mi>c</mi></mrow></mfrac><msqrt><mn>5</mn><mi>x</mi></msqrt></math>",
+    "<math><mi>sin</mi><mo>&#x2061;</mo><mi>x</mi><mo>+</mo><mi>f</mi><mo>&#x2061;</mo><mrow><mo>(</mo><mi>x</mi><mo>)</mo></mrow></math>",
+    "<math><mn>3</mn><mo>&#x2064;</mo><mfrac><mn>1</mn><mn>2</mn></mfrac><mo>=</mo><mi>a</mi><mi>b</mi></math>",
+]
+
+
 def nav_commands():
     src = open(core.REPO + "/src/navigate.rs", encoding="utf-8").read()
     m = re.search(r"NAV_COMMANDS\s*:[^=]*=\s*phf_set!\s*\{(.*?)\};", src, re.S)
@@ -81,7 +91,8 @@ def run(ctx):
     samples = []
     init_state = mo.run([{"op": "nav_init"}])[0]["v"]
     for w in range(n_walks):
-        mode = rng.choice(["Enhanced", "Simple", "Character"])
+        targeted = w % 4 == 3
+        mode = "Enhanced" if targeted else rng.choice(["Enhanced", "Simple", "Character"])      # (only Enhanced mode lands on invisible operators and retries)
         pre = [{"op": "session"}, {"op": "rules_dir", "dir": core.rules_dir()},
                {"op": "set_pref", "name": "NavMode", "value": mode},
                {"op": "set_pref", "name": "Overview", "value": rng.choice(["true", "false"])},
@@ -91,6 +102,14 @@ def run(ctx):
         # plan: [(kind, arg)]
         plan = []
         n_expr = rng.choice([1, 2, 2, 3])
+        if targeted:
+            # leaf-level walk over an expression with invisible operators: landing on one gives no speech and the command is retried
+            # (the retry loop and pop_stack are reached this way only)
+            n_expr = 0
+            plan.append(("mathml", rng.choice(RETRY_EXPRS[:4])))
+            plan += [("cmd", c) for c in rng.choice([["ZoomInAll"], ["ZoomIn", "ZoomIn"], ["ZoomIn", "ZoomIn", "ZoomIn"], ["MoveStart", "ZoomInAll"]])]
+            for _ in range(n_cmds):
+                plan.append(("cmd", rng.choice(["MoveNext", "MoveNext", "MoveNext", "MoveNext", "MovePrevious", "MoveLastLocation", "ZoomIn", "MoveStart", "ReadCurrent", "SetPlacemarker1", "MoveTo1"])))
         for k in range(n_expr):
             t = rng.choice(corpus) if rng.random() < 0.5 else mml.math(mml.gen_expr(rng, rng.randrange(1, 4)))
             plan.append(("mathml", mml.to_xml(t)))
@@ -185,6 +204,8 @@ def run(ctx):
                 oracle_fail.append({"why": "current navigation id is not a node of the current expression", "nav_id": nid, "trace": trace[-12:]})
             elif nmml.get("r") != "ok":
                 oracle_fail.append({"why": "get_navigation_mathml failed", "reply": {k: str(v)[:200] for k, v in nmml.items()}, "trace": trace[-12:]})
+            if kind == "key" and 0x30 <= arg[0] <= 0x39 and arg[2] and not arg[1] and r0.get("r") == "ok" and before and before.get("r") == "ok":
+                marks[arg[0] - 0x30] = before["v"]        # control + digit sets that place marker
             if kind == "cmd" and r0.get("r") == "ok" and before and before.get("r") == "ok" and nid.get("r") == "ok":
                 if not is_move(arg) and arg != "MoveLastLocation" and nid["v"] != before["v"]:
                     oracle_fail.append({"why": "a read/describe/where/marker command moved the position", "cmd": arg, "before": before["v"], "after": nid["v"], "trace": trace[-12:]})
@@ -199,14 +220,15 @@ def run(ctx):
                         oracle_fail.append({"why": "MoveToN did not return to the marked node", "cmd": arg, "marked": marks[int(m.group(1))], "after": nid["v"], "trace": trace[-12:]})
                 if is_move(arg) and nid["v"] != before["v"]:
                     moved += 1
-                    if len([e for e in logv if "try" in e]) == 1 and rng.random() < 0.3:
+                    if rng.random() < (0.6 if targeted and len([e for e in logv if "try" in e]) > 1 else 0.3):
                         # undo the last move: must return to the node that was current before it
                         rep2 = im.run([{"op": "nav", "cmd": "MoveLastLocation"}, {"op": "hook", "which": "nav_log"}, {"op": "hook", "which": "nav_state"}, {"op": "nav_id"}])
                         evals += 1
                         used_marker_or_undo = True
                         trace.append(["cmd", "MoveLastLocation"])
-                        if rep2[0].get("r") == "ok" and rep2[3].get("v") != before["v"]:
-                            oracle_fail.append({"why": "undoing the last move did not return to the previous node", "before": before["v"], "after_undo": rep2[3].get("v"), "trace": trace[-12:]})
+                        if rep2[3].get("v") != before["v"]:      # (also when the undo itself reports an error: a move was just made, so there is one to undo)
+                            oracle_fail.append({"why": "undoing the last move did not return to the previous node", "before": before["v"], "after_undo": rep2[3].get("v"),
+                                                "undo_reply": {k: str(v)[:120] for k, v in rep2[0].items()}, "trace": trace[-12:]})
                         mstate = dict(rep2[2].get("v", mstate))
         if moved >= 5 and used_marker_or_undo:
             walks_nontrivial += 1
